@@ -137,3 +137,172 @@ let show_res (f : 'a -> string) (r : 'a res) : string =
   match r with Ok a -> "ok " ^ f a | Err e -> "err " ^ show_err e | Panic -> "panic"
 let show_bool b = if b then "=true" else "=false"
 
+
+let show_opt (f : 'a -> string) (o : 'a option) : string = match o with Some x -> f x | None -> "=none"
+(* buffer-writing ops print the whole buffer; on error the buffer is what the caller passed in *)
+let show_buf (prefix : n list) (r : n list res) : string =
+  match r with Ok b -> "ok " ^ hex b | Err e -> "err " ^ show_err e ^ " " ^ hex prefix | Panic -> "panic"
+let show_offs (o : n list) : string = String.concat "," (List.map (fun x -> ZA.to_string (zt_of_n x)) o)
+let show_sel (prefix : n list) (r : (n list * n list) res) : string =
+  match r with
+  | Ok (b, o) -> "ok " ^ hex b ^ " " ^ show_offs o
+  | Err e -> "err " ^ show_err e ^ " " ^ hex prefix
+  | Panic -> "panic"
+let mode_of (s : string) : mode = match s with "first" -> MFirst | "array" -> MArray | "all" -> MAll | _ -> MMixed
+
+(* key paths: i<dec> n<hex> q<hex>, comma separated, _ = empty *)
+let parse_keypaths (s : string) : keypath list =
+  if s = "_" then []
+  else
+    List.map
+      (fun e ->
+        let r = String.sub e 1 (String.length e - 1) in
+        match e.[0] with
+        | 'i' -> KIndex (z_of_zt (ZA.of_string r))
+        | 'n' -> KName (unhex_raw r)
+        | 'q' -> KQuoted (unhex_raw r)
+        | _ -> failwith "driver parse: keypath")
+      (String.split_on_char ',' s)
+let show_keypaths (ks : keypath list) : string =
+  if ks = [] then "_"
+  else
+    String.concat ","
+      (List.map (fun k -> match k with
+         | KIndex i -> "i" ^ ZA.to_string (zt_of_z i)
+         | KName s -> "n" ^ hexs s
+         | KQuoted s -> "q" ^ hexs s) ks)
+
+(* JSONPath AST neutral text *)
+let p_int c : z = z_of_zt (decrun c)
+let p_index c : index =
+  let k = peek c in
+  c.i <- c.i + 1;
+  match k with 'x' -> IIndex (p_int c) | 'l' -> ILast (p_int c) | _ -> failwith "driver parse: index"
+let rec p_pathlist c : path list =
+  let p = p_path c in
+  if peek c = ';' then (c.i <- c.i + 1; p :: p_pathlist c) else [p]
+and p_path c : path =
+  let k = peek c in
+  c.i <- c.i + 1;
+  match k with
+  | 'R' -> PRoot | 'C' -> PCurrent | 'W' -> PDotWild | 'B' -> PBracketWild
+  | 'D' -> PDotField (hexrun c) | 'K' -> PColonField (hexrun c) | 'O' -> PObjectField (hexrun c)
+  | 'I' ->
+      eat c '(';
+      let acc = ref [] in
+      let go = ref true in
+      while !go do
+        (if peek c = 'S' then begin
+           c.i <- c.i + 1;
+           let a = p_index c in
+           eat c '~';
+           let b = p_index c in
+           acc := ASlice (a, b) :: !acc
+         end else acc := AIndex (p_index c) :: !acc);
+        if peek c = ',' then c.i <- c.i + 1 else (eat c ')'; go := false)
+      done;
+      PIndices (List.rev !acc)
+  | 'F' -> PFilter (p_expr c)
+  | 'P' -> PPredicate (p_expr c)
+  | ch -> failwith (Printf.sprintf "driver parse: path %c" ch)
+and p_expr c : expr =
+  let k = peek c in
+  c.i <- c.i + 1;
+  match k with
+  | 'p' -> eat c '('; let v = p_pathlist c in eat c ')'; EPaths v
+  | 'e' -> eat c '('; let v = p_pathlist c in eat c ')'; EExists v
+  | 'v' ->
+      (match peek c with
+       | 'n' -> c.i <- c.i + 1; EValue PVNull
+       | 't' -> c.i <- c.i + 1; EValue (PVBool true)
+       | 'f' -> c.i <- c.i + 1; EValue (PVBool false)
+       | 's' -> c.i <- c.i + 1; EValue (PVStr (hexrun c))
+       | _ -> EValue (PVNum (p_num c)))
+  | 'b' ->
+      let st = c.i in
+      while peek c <> '(' do c.i <- c.i + 1 done;
+      let op = match String.sub c.s st (c.i - st) with
+        | "and" -> OAnd | "or" -> OOr | "eq" -> OEq | "ne" -> ONe | "lt" -> OLt | "le" -> OLe | "gt" -> OGt | "ge" -> OGe
+        | _ -> failwith "driver parse: op" in
+      eat c '(';
+      let l = p_expr c in
+      eat c '|';
+      let r = p_expr c in
+      eat c ')';
+      EBin (op, l, r)
+  | 'A' ->
+      let kind = peek c in
+      c.i <- c.i + 1;
+      let o = peek c in
+      c.i <- c.i + 1;
+      eat c '(';
+      if kind = 'b' then begin
+        let l = p_expr c in
+        eat c '|';
+        let r = p_expr c in
+        eat c ')';
+        EArithB ((match o with '+' -> BAdd | '-' -> BSub | '*' -> BMul | '/' -> BDiv | _ -> BMod), l, r)
+      end else begin
+        let e = p_expr c in
+        eat c ')';
+        EArithU ((if o = '+' then UAdd else USub), e)
+      end
+  | ch -> failwith (Printf.sprintf "driver parse: expr %c" ch)
+let parse_jsonpath (s : string) : path list =
+  let c = { s; i = 0 } in
+  let ps = p_pathlist c in
+  if c.i <> String.length s then failwith "driver parse: trailing path text";
+  ps
+
+let show_ix (i : index) = match i with IIndex z -> "x" ^ ZA.to_string (zt_of_z z) | ILast z -> "l" ^ ZA.to_string (zt_of_z z)
+let rec show_paths (ps : path list) : string = String.concat ";" (List.map show_path1 ps)
+and show_path1 (p : path) : string =
+  match p with
+  | PRoot -> "R" | PCurrent -> "C" | PDotWild -> "W" | PBracketWild -> "B"
+  | PDotField s -> "D" ^ hexs s | PColonField s -> "K" ^ hexs s | PObjectField s -> "O" ^ hexs s
+  | PIndices l ->
+      "I(" ^ String.concat "," (List.map (fun a -> match a with
+                 | AIndex i -> show_ix i
+                 | ASlice (a, b) -> "S" ^ show_ix a ^ "~" ^ show_ix b) l) ^ ")"
+  | PFilter e -> "F" ^ show_expr1 e
+  | PPredicate e -> "P" ^ show_expr1 e
+and show_expr1 (e : expr) : string =
+  match e with
+  | EPaths ps -> "p(" ^ show_paths ps ^ ")"
+  | EExists ps -> "e(" ^ show_paths ps ^ ")"
+  | EValue PVNull -> "vn" | EValue (PVBool true) -> "vt" | EValue (PVBool false) -> "vf"
+  | EValue (PVNum x) -> "v" ^ show_num x
+  | EValue (PVStr s) -> "vs" ^ hexs s
+  | EBin (op, l, r) ->
+      "b" ^ (match op with OAnd -> "and" | OOr -> "or" | OEq -> "eq" | ONe -> "ne" | OLt -> "lt" | OLe -> "le" | OGt -> "gt" | OGe -> "ge")
+      ^ "(" ^ show_expr1 l ^ "|" ^ show_expr1 r ^ ")"
+  | EArithU (op, x) -> "Au" ^ (match op with UAdd -> "+" | USub -> "-") ^ "(" ^ show_expr1 x ^ ")"
+  | EArithB (op, l, r) ->
+      "Ab" ^ (match op with BAdd -> "+" | BSub -> "-" | BMul -> "*" | BDiv -> "/" | BMod -> "%")
+      ^ "(" ^ show_expr1 l ^ "|" ^ show_expr1 r ^ ")"
+
+(* serde dump *)
+let show_snum (x : snum) : string =
+  match x with
+  | SPos n -> "u" ^ ZA.to_string (zt_of_n n)
+  | SNeg z -> "i" ^ ZA.to_string (zt_of_z z)
+  | SFloat b -> "d" ^ ZA.format "%016x" (zt_of_n b)
+let rec show_sj (v : sj) : string =
+  match v with
+  | SNull -> "n" | SBool true -> "t" | SBool false -> "f"
+  | SNum x -> show_snum x
+  | SStr s -> "s" ^ hexs s
+  | SArr l -> "[" ^ String.concat "," (List.map show_sj l) ^ "]"
+  | SObj l ->
+      let l = List.sort (fun (a, _) (b, _) -> compare (string_of_bytes a) (string_of_bytes b)) l in
+      "{" ^ String.concat "," (List.map (fun (k, x) -> hexs k ^ ":" ^ show_sj x) l) ^ "}"
+let rec sj_of_value (v : value) : sj =
+  match v with
+  | VNull -> SNull | VBool b -> SBool b | VStr s -> SStr s
+  | VNum (NInt z) -> if ZA.sign (zt_of_z z) < 0 then SNum (SNeg z) else SNum (SPos (n_of_zt (zt_of_z z)))
+  | VNum (NUInt n) -> SNum (SPos n)
+  | VNum (NFloat b) -> SNum (SFloat b)
+  | VArr l -> SArr (List.map sj_of_value l)
+  | VObj l -> SObj (List.map (fun (k, x) -> (k, sj_of_value x)) l)
+(* the neutral text of a serde value is the neutral value text: i<neg> = NegInt, u = PosInt, d = Float *)
+let parse_sj (s : string) : sj = sj_of_value (parse_val s)
